@@ -132,7 +132,7 @@ namespace
       {
         const Poly<D>& ei = e[(size_t)i];
         x.h0c[(size_t)i] = I(ei * ei); x.h1c[(size_t)i] = I(grad_sqr(ei)); x.h2c[(size_t)i] = I(hess_sqr(ei));
-        x.val[(size_t)i] = I(ei); x.l1c[(size_t)i] = x.val[(size_t)i];
+        x.val[(size_t)i] = I(ei); x.l1c[(size_t)i] = std::fabs(x.val[(size_t)i]); // L1 norm: only used for components of fixed sign
         x.sval[(size_t)i] = mc.integrate_abs(ei);
         for(int j = 0; j < D; ++j) x.grad[(size_t)i][(size_t)j] = I(ei.diff(j));
         x.h0 += x.h0c[(size_t)i]; x.h1 += x.h1c[(size_t)i]; x.h2 += x.h2c[(size_t)i]; x.l1 += x.l1c[(size_t)i];
@@ -185,13 +185,14 @@ namespace
       {
         PF P; BV vec;
         make_field(field, P, vec);
-        // which 0: function == FE function, 1: analytic cubic field, 2: FE function + positive field (L1), 3: FE function + constants (Lmax)
+        // which 0: function == FE function, 1: analytic cubic field, 2: FE function + field with components of fixed sign (L1), 3: FE function + constants of both signs (Lmax)
         for(int which = 0; which < 4; ++which)
         {
           PF fn = P;
           if(which == 1) fn = F;
-          if(which == 2) for(int i = 0; i < N; ++i) { fn[(size_t)i] += Poly<D>(LD(0.375 * (i + 1))); for(int j = 0; j < D; ++j) fn[(size_t)i] += Poly<D>::var(j) * Poly<D>::var(j) * LD(0.25 * (j + i + 1)); }
-          if(which == 3) for(int i = 0; i < N; ++i) fn[(size_t)i] += Poly<D>(LD(0.375 * (i + 1)));
+          // components of fixed sign: even components negative, odd components positive
+          if(which == 2) for(int i = 0; i < N; ++i) { const LD sg = (i % 2 == 0) ? LD(-1) : LD(1); fn[(size_t)i] += Poly<D>(sg * LD(0.375 * (i + 1))); for(int j = 0; j < D; ++j) fn[(size_t)i] += Poly<D>::var(j) * Poly<D>::var(j) * (sg * LD(0.25 * (j + i + 1))); }
+          if(which == 3) for(int i = 0; i < N; ++i) fn[(size_t)i] += Poly<D>(((i % 2 == 0) ? LD(-1) : LD(1)) * LD(0.375 * (i + 1)));
           PF e; LD s0 = 0;
           for(int i = 0; i < N; ++i) { e[(size_t)i] = fn[(size_t)i] - P[(size_t)i]; s0 += mc.integrate_abs(fn[(size_t)i] * fn[(size_t)i]) + mc.integrate_abs(P[(size_t)i] * P[(size_t)i]); }
           Exact x = exact_of(e);
